@@ -445,6 +445,20 @@ class C10Executor(Executor):
         return [(st, f)]
 
 
+def done(label, inv):
+    """wraps a loop invariant: reaching the loop's normal exit (not a `break`) is recorded in the ghost state"""
+    def f(lc):
+        r = inv(lc)
+        if lc.extra.get("phase") == "exit":
+            lc.st.ghost[("done", label)] = True
+        return r
+    return f
+
+
+def completes(*labels):
+    return ("member-loops-run-to-completion", lambda c: z3.BoolVal(all(c.st.ghost.get(("done", l)) for l in labels)))
+
+
 def events(st, key):
     return st.ghost.get(key, ())
 
@@ -584,7 +598,7 @@ def layout_contracts():
         requires=lambda c: z3.And(ops.int_term(c.args["pack_pos"]) >= 0, df_sum(c) >= 0, NCOD(c.args["folder"].t) >= 0),
         returns=df_returns,
         raises=[Raises(BAD, label="no coders / decoder failure")],
-        loops={0: LoopSpec(inv=df_inv, label="decoder-chain-last-coder-first")},
+        loops={0: LoopSpec(inv=done("decoder-chain-last-coder-first", df_inv), label="decoder-chain-last-coder-first")},
         note="decodes archive[pack_pos : pack_pos + sum(pack_sizes)] through the folder's coder chain, last coder first "
              "(empty / all-zero size list: everything from pack_pos to the end of the file -- the header case)"))
 
@@ -633,7 +647,8 @@ def layout_contracts():
         params=[("self", ef_self()), ("base_path", p_str()), ("folder_idx", p_int(0)), ("decompressed", p_ext("Blob"))],
         requires=ef_requires,
         raises=[Raises(BAD, label="unsafe name / size beyond the folder output / file-system failure")],
-        loops={0: LoopSpec(inv=ef_inv, label="member-j-is-slice-off_j-size_j-of-the-folder-output")},
+        ensures=[completes("member-j-is-slice-off_j-size_j-of-the-folder-output")],
+        loops={0: LoopSpec(inv=done("member-j-is-slice-off_j-size_j-of-the-folder-output", ef_inv), label="member-j-is-slice-off_j-size_j-of-the-folder-output")},
         frame=lambda ex, st, ctx: st.ghost.__setitem__("extracted", events(st, "extracted") + ((ctx.args["folder_idx"], ctx.args["decompressed"]),)),
         note="offset of entry j = sum of the sizes of the earlier non-directory entries of the folder"))
 
@@ -685,7 +700,8 @@ def layout_contracts():
         requires=ea_requires, hyps=ea_hyps,
         raises=[Raises("ValueError", when=lambda c: z3.Length(c.args["path"].t) == 0, label="empty path"),
                 Raises(BAD, label="directory creation / decoder / member extraction failed")],
-        loops={0: LoopSpec(inv=ea_inv, label="folder-k-decoded-from-its-own-pack-stream")},
+        ensures=[completes("folder-k-decoded-from-its-own-pack-stream")],
+        loops={0: LoopSpec(inv=done("folder-k-decoded-from-its-own-pack-stream", ea_inv), label="folder-k-decoded-from-its-own-pack-stream")},
         note="for every folder k that has files: the bytes handed to _extract_files_from_folder are "
              "decode_chain(folder k, archive[pack_pos + sum(pack_sizes[:k]) : +pack_sizes[k]])"))
     return out
@@ -702,12 +718,580 @@ def sizes_pos(upto):
     return z3.ForAll([t], z3.Implies(z3.And(t >= 0, t < upto), PSZ(t) > 0), patterns=[PSZ(t)])
 
 
+# ======================================================= member loops (e), (f) ==
+ZipFileS, ZipInfoS = ext_sort("ZipFile"), ext_sort("ZipInfo")
+TarFileS, TarInfoS = ext_sort("TarFile"), ext_sort("TarInfo")
+Extractor, ResultGen, Result = ext_sort("Extractor"), ext_sort("ResultGen"), ext_sort("Result")
+EntryGen, MemberIO = ext_sort("EntryGen"), ext_sort("MemberIO")
+ZN = z3.Function("zip_n", ZipFileS, I)
+ZINFO = z3.Function("zip_info", ZipFileS, I, ZipInfoS)
+ZISDIR = z3.Function("zipinfo_is_dir", ZipInfoS, B)
+ZFLAGS = z3.Function("zipinfo_flag_bits", ZipInfoS, z3.BitVecSort(16))
+ZNAME = z3.Function("zipinfo_filename", ZipInfoS, S)
+ZSIZE = z3.Function("zipinfo_file_size", ZipInfoS, I)
+ZREAD = z3.Function("zip_read", ZipFileS, ZipInfoS, Blob)           # zf.read(info): Trust = the member's bytes
+TN = z3.Function("tar_n", TarFileS, I)
+TMEM = z3.Function("tar_member", TarFileS, I, TarInfoS)
+TISREG = z3.Function("tarinfo_isreg", TarInfoS, B)
+TNAME = z3.Function("tarinfo_name", TarInfoS, S)
+TSIZE = z3.Function("tarinfo_size", TarInfoS, I)
+THASFILE = z3.Function("tar_extractfile_not_none", TarFileS, TarInfoS, B)
+TREAD = z3.Function("tar_read", TarFileS, TarInfoS, Blob)           # tf.extractfile(m).read(): Trust
+BASENAME = z3.Function("os_path_basename", S, S)
+SKIP = z3.Function("should_skip_file", S, S, B)                     # _should_skip_file (content proved by C09)
+MAXMEM = z3.Int("config_max_memory_size")
+EXTR = z3.Function("get_extractor", S, Extractor)                   # router.get_extractor (C07)
+MEMIO = z3.Function("BytesIO_of", Blob, MemberIO)
+RUN = z3.Function("extractor_call", Extractor, MemberIO, S, ResultGen)
+NRES = z3.Function("result_count", ResultGen, I)
+RES = z3.Function("result_at", ResultGen, I, Result)
+ENTRY = z3.Function("process_archive_entry", S, Blob, B, S, S, EntryGen)   # (filename, bytes, path is None, path, basename)
+FSREAD = z3.Function("fs_read", S, Blob)                            # content of the file at a path
+EXISTS = z3.Function("fs_exists", S, B)
+N7 = z3.Int("szf_list_len")
+
+
+def ap_terms(v):
+    if isinstance(v, VStr):
+        return z3.BoolVal(False), v.t
+    return z3.BoolVal(True), z3.StringVal("")
+
+
+def entry_term(fn, data, ap, bn):
+    none, apt = ap_terms(ap)
+    return ENTRY(fn, data, none, apt, bn)
+
+
+def member_path(ap, fn):
+    """`archive!/member` (the member name alone when no archive path is given)."""
+    if isinstance(ap, VStr):
+        return z3.If(z3.Length(ap.t) > 0, z3.Concat(ap.t, z3.StringVal("!/"), fn), fn)
+    return fn
+
+
+class MemberExecutor(C10Executor):
+    """Adds ghost recording for the member loops: raised-exception counter, extractor dispatch, yields,
+    list appends; iteration over an extractor's result generator."""
+
+    def raise_in(self, st, exc):
+        st.ghost["raised"] = st.ghost.get("raised", 0) + 1
+        super().raise_in(st, exc)
+
+    def s_Raise(self, s, st):
+        outs = super().s_Raise(s, st)
+        for o in outs:
+            if o.kind == "raise":
+                o.st.ghost["raised"] = o.st.ghost.get("raised", 0) + 1
+        return outs
+
+    def call(self, st, f, args, kwargs, node):
+        if isinstance(f, VExt) and f.sort == "Extractor":
+            st.ghost["dispatch"] = events(st, "dispatch") + ((f, tuple(args), dict(kwargs)),)
+            self.exc_any(st.fork(), f"{self.loc(node)} extractor call")
+            a0, pth = (args[0] if args else None), kwargs.get("path")
+            if len(args) == 1 and isinstance(a0, VExt) and a0.sort == "MemberIO" and isinstance(pth, VStr) and set(kwargs) == {"path"}:
+                return [(st, VExt("ResultGen", RUN(f.t, a0.t, pth.t)))]
+            return [(st, VExt("ResultGen"))]
+        return super().call(st, f, args, kwargs, node)
+
+    def seq_view(self, st, it):
+        if isinstance(it, VExt) and it.sort == "ResultGen":
+            # a generator: next() may raise at any point (a corrupt member): exceptional path from the loop
+            self.exc_any(st.fork(), "next(extractor results)")
+            st.assume(NRES(it.t) >= 0)
+            return NRES(it.t), (lambda i, g=it.t: VExt("Result", RES(g, i)))
+        return super().seq_view(st, it)
+
+    def on_yield(self, st, v, node):
+        st.ghost["yields"] = events(st, "yields") + (v,)
+
+    def on_yield_from(self, st, gen, node):
+        st.ghost["yields"] = events(st, "yields") + (gen,)
+
+    def list_method(self, st, obj, name, args, kwargs, node):
+        if name == "append":
+            st.ghost["appends"] = events(st, "appends") + ((obj.ref, args[0]),)
+            o = st.obj(obj.ref)
+            if o.data is None:
+                return [(st, NONE)]
+        return super().list_method(st, obj, name, args, kwargs, node)
+
+    def b_open(self, st, args, kwargs, node):
+        if self.contract is not None and self.contract.target.startswith(SEVEN):
+            return super().b_open(st, args, kwargs, node)
+        self.exc_any(st.fork(), f"{self.loc(node)} open")
+        f = VExt("PyFile")
+        st.ghost[("pyfile", f.t.get_id())] = (args[0], args[1] if len(args) > 1 else kwargs.get("mode"))
+        return [(st, f)]
+
+    def compare(self, st, op, a, b, node):
+        if op in ("Eq", "NotEq"):
+            for x, y in ((a, b), (b, a)):
+                if isinstance(x, VSeq) and x.is_bytes and isinstance(y, VBytes):
+                    t = z3.And([x.length == len(y.items)] + [self.as_byte(x.elem(z3.IntVal(i))).t == self.as_byte(yi).t
+                                                              for i, yi in enumerate(y.items)])
+                    return [(st, VBool(t if op == "Eq" else z3.Not(t)))]
+        return super().compare(st, op, a, b, node)
+
+
+def m_stream_seek(ex, st, obj, args, kwargs, node):
+    if len(args) == 2 and isinstance(args[1], VInt) and args[1].const() == 2:
+        st.assume(SLEN(obj.t) >= 0)
+        st.ghost[common.pos_key(obj)] = SLEN(obj.t) + ops.int_term(args[0])
+        return [(st, VInt(st.ghost[common.pos_key(obj)]))]
+    return common.m_seek(ex, st, obj, args, kwargs, node)
+
+
+def worklist_name(fnode, loop_ordinal=0):
+    """the local list a selection loop appends to (the unique `X.append(...)` receiver in that loop)."""
+    loops = sorted([n for n in ast.walk(fnode) if isinstance(n, (ast.For, ast.While))], key=lambda n: (n.lineno, n.col_offset))
+    names = {n.func.value.id for n in ast.walk(loops[loop_ordinal]) if isinstance(n, ast.Call) and isinstance(n.func, ast.Attribute)
+             and n.func.attr == "append" and isinstance(n.func.value, ast.Name)}
+    if len(names) != 1:
+        raise ops.Unsupported(f"selection loop: expected one appended-to list, found {sorted(names)}")
+    return names.pop()
+
+
+def with_passthrough(ex, st, cm, phase):
+    if phase == "enter":
+        return [(st, cm)]
+
+
+def install_members(reg):
+    reg.method_models[("Stream7z", "seek")] = m_stream_seek
+    reg.ext_models[("const", "os.SEEK_END")] = VInt(2)
+    common.install_clock(reg)
+    reg.module_consts[(ARCH, "_config")] = VExt("ArchiveConfig")
+    reg.attr_models[("ArchiveConfig", "max_memory_size")] = lambda ex, st, o: VInt(MAXMEM)
+    reg.ext_models["os.path.basename"] = lambda ex, st, args, kwargs, node: [(st, VStr(BASENAME(args[0].t)))]
+    reg.ext_models["io.BytesIO"] = lambda ex, st, args, kwargs, node: (
+        [(st, VExt("MemberIO", MEMIO(args[0].t)))] if args and isinstance(args[0], VExt) and args[0].sort == "Blob"
+        else ex.havoc_call(st, "io.BytesIO", args, node))
+    # ---- zipfile (ASSUMED view)
+    def new_zip(ex, st, args, kwargs, node):
+        bad = st.fork()
+        ex.exc_any(bad, "zipfile.ZipFile()")
+        zf = VExt("ZipFile")
+        st.assume(ZN(zf.t) >= 0)
+        st.ghost["zip_source"] = args[0] if args else None
+        return [(st, zf)]
+    reg.ext_models[("new", "zipfile.ZipFile")] = new_zip
+    reg.ext_models[("with", "ZipFile")] = with_passthrough
+    reg.method_models[("ZipFile", "infolist")] = lambda ex, st, o, a, k, n: [(st, VSeq(ZN(o.t), lambda i: VExt("ZipInfo", ZINFO(o.t, i)), "ZipInfo"))]
+    reg.attr_models[("ZipInfo", "is_dir")] = lambda ex, st, o: VFunc("bound", o, "is_dir")
+    reg.method_models[("ZipInfo", "is_dir")] = lambda ex, st, o, a, k, n: [(st, VBool(ZISDIR(o.t)))]
+    reg.attr_models[("ZipInfo", "flag_bits")] = lambda ex, st, o: VInt(ZFLAGS(o.t))
+    reg.attr_models[("ZipInfo", "filename")] = lambda ex, st, o: VStr(ZNAME(o.t))
+    reg.attr_models[("ZipInfo", "file_size")] = lambda ex, st, o: VInt(ZSIZE(o.t))
+
+    def zip_read(ex, st, obj, args, kwargs, node):
+        """zf.read(info): ASSUMED to return the member's bytes, or to raise RuntimeError (encrypted member)."""
+        bad = st.fork()
+        ex.raise_in(bad, ex.mk_exc("RuntimeError"))
+        a = args[0]
+        if isinstance(a, VExt) and a.sort == "ZipInfo":
+            return [(st, VExt("Blob", ZREAD(obj.t, a.t)))]
+        return [(st, VExt("Blob"))]
+    reg.method_models[("ZipFile", "read")] = zip_read
+    # ---- tarfile (ASSUMED view)
+    def tar_open(ex, st, args, kwargs, node):
+        ex.exc_any(st.fork(), "tarfile.open()")
+        tf = VExt("TarFile")
+        st.assume(TN(tf.t) >= 0)
+        st.ghost["tar_open"] = (kwargs.get("fileobj"), kwargs.get("mode"))
+        return [(st, tf)]
+    reg.ext_models["tarfile.open"] = tar_open
+    reg.ext_models[("with", "TarFile")] = with_passthrough
+
+    def tar_getmembers(ex, st, o, a, k, n):
+        ex.exc_any(st.fork(), "TarFile.getmembers()")
+        return [(st, VSeq(TN(o.t), lambda i: VExt("TarInfo", TMEM(o.t, i)), "TarInfo"))]
+    reg.method_models[("TarFile", "getmembers")] = tar_getmembers
+    reg.attr_models[("TarInfo", "isreg")] = lambda ex, st, o: VFunc("bound", o, "isreg")
+    reg.method_models[("TarInfo", "isreg")] = lambda ex, st, o, a, k, n: [(st, VBool(TISREG(o.t)))]
+    reg.attr_models[("TarInfo", "name")] = lambda ex, st, o: VStr(TNAME(o.t))
+    reg.attr_models[("TarInfo", "size")] = lambda ex, st, o: VInt(TSIZE(o.t))
+
+    def tar_extractfile(ex, st, obj, args, kwargs, node):
+        ex.exc_any(st.fork(), "TarFile.extractfile()")
+        m = args[0]
+        if not (isinstance(m, VExt) and m.sort == "TarInfo"):
+            return [(st, VUnk("extractfile"))]
+        none = st.fork().assume(z3.Not(THASFILE(obj.t, m.t)))
+        st.assume(THASFILE(obj.t, m.t))
+        f = VExt("TarMemberFile")
+        st.ghost[("tarmember", f.t.get_id())] = (obj.t, m.t)
+        return [(none, NONE), (st, f)]
+    reg.method_models[("TarFile", "extractfile")] = tar_extractfile
+
+    def tarmember_read(ex, st, obj, args, kwargs, node):
+        ex.exc_any(st.fork(), "extractfile().read()")
+        tm = st.ghost.get(("tarmember", obj.t.get_id()))
+        return [(st, VExt("Blob", TREAD(*tm)) if tm else VExt("Blob"))]
+    reg.method_models[("TarMemberFile", "read")] = tarmember_read
+    # ---- SevenZipFile / temp dir / files (ASSUMED views)
+    def new_7z(ex, st, args, kwargs, node):
+        ex.exc_any(st.fork(), "SevenZipFile()")
+        z = VExt("SevenZipFile")
+        st.ghost["szf_source"] = args[0] if args else None
+        return [(st, z)]
+    reg.ext_models[("new", "SevenZipFile")] = new_7z
+    reg.ext_models[("new", "sharepoint2text.parsing.extractors.util.sevenzip.SevenZipFile")] = new_7z
+    reg.ext_models[("with", "SevenZipFile")] = with_passthrough
+
+    def szf_needs_password(ex, st, o, a, k, n):
+        ex.exc_any(st.fork(), "SevenZipFile.needs_password()")
+        return [(st, VBool(z3.Bool(fresh_name("needs_password"))))]
+    reg.method_models[("SevenZipFile", "needs_password")] = szf_needs_password
+
+    def szf_list(ex, st, o, a, k, n):
+        ex.exc_any(st.fork(), "SevenZipFile.list()")
+        st.assume(N7 >= 0)
+        return [(st, VSeq(N7, lambda i: VExt("FileInfo", FINFO(i)), "FileInfo"))]
+    reg.method_models[("SevenZipFile", "list")] = szf_list
+
+    def szf_extractall(ex, st, o, a, k, n):
+        ex.exc_any(st.fork(), "SevenZipFile.extractall()")
+        st.ghost["extractall"] = events(st, "extractall") + ((k.get("path", a[0] if a else None)),)
+        return [(st, NONE)]
+    reg.method_models[("SevenZipFile", "extractall")] = szf_extractall
+
+    def tempdir(ex, st, args, kwargs, node):
+        ex.exc_any(st.fork(), "tempfile.TemporaryDirectory()")
+        return [(st, VExt("TempDir"))]
+    reg.ext_models["tempfile.TemporaryDirectory"] = tempdir
+    reg.ext_models[("new", "tempfile.TemporaryDirectory")] = tempdir
+
+    def with_tempdir(ex, st, cm, phase):
+        if phase == "enter":
+            t = VStr(z3.String(fresh_name("temp_dir")))
+            st.ghost["temp_dir"] = t
+            return [(st, t)]
+    reg.ext_models[("with", "TempDir")] = with_tempdir
+
+    def os_exists(ex, st, args, kwargs, node):
+        ex.exc_any(st.fork(), "os.path.exists")
+        return [(st, VBool(EXISTS(args[0].t)) if isinstance(args[0], VStr) else VBool(z3.Bool(fresh_name("exists"))))]
+    reg.ext_models["os.path.exists"] = os_exists
+    reg.ext_models[("with", "PyFile")] = with_passthrough
+
+    def pyfile_read(ex, st, obj, args, kwargs, node):
+        ex.exc_any(st.fork(), "file.read()")
+        path, mode = st.ghost.get(("pyfile", obj.t.get_id()), (None, None))
+        if isinstance(path, VStr) and isinstance(mode, VStr) and mode.const() == "rb" and not args:
+            return [(st, VExt("Blob", FSREAD(path.t)))]
+        return [(st, VExt("Blob"))]
+    reg.method_models[("PyFile", "read")] = pyfile_read
+
+
+def p_worklist(prefix, first_sort):
+    """an arbitrary list of (handle, filename, basename) work items"""
+    n = z3.Int(f"{prefix}_len")
+    h = z3.Function(f"{prefix}_item", I, ext_sort(first_sort))
+    fn = z3.Function(f"{prefix}_filename", I, S)
+    bn = z3.Function(f"{prefix}_basename", I, S)
+    return Maker(lambda ex, st, name: [(n >= 0, VSeq(n, lambda i: VTuple([VExt(first_sort, h(i)), VStr(fn(i)), VStr(bn(i))]), "tuple"))],
+                 desc="list[(handle, filename, basename)]"), (n, h, fn, bn)
+
+
+def sel_axiom(SEL, RANK, keep, n):
+    """SEL enumerates the kept indices in increasing order: SEL(RANK(a)) = a for every kept a (definition)."""
+    a = z3.Int("a!sel")
+    return z3.ForAll([a], z3.Implies(z3.And(a >= 0, a < n, keep(a)), SEL(RANK(a)) == a), patterns=[RANK(a)])
+
+
+def member_contracts():
+    out = []
+    arch = loader.module(ARCH)
+    max_entry = eval(compile(ast.Expression(arch.assigns["MAX_ARCHIVE_FILE_SIZE"]), "x", "eval"), {})
+
+    # ---- assumed helpers (proved elsewhere)
+    out.append(FnContract(target=f"{ARCH}::_should_skip_file", assumed=True, params=[("filename", p_str()), ("basename", p_str())],
+                          returns=lambda c: VBool(SKIP(c.args["filename"].t, c.args["basename"].t)),
+                          note="hidden / unsupported / nested-archive members (definition proved by the C09 pack)"))
+    out.append(FnContract(target=f"{ARCH}::_get_file_extractor_cached", assumed=True, params=[("filename", p_str())],
+                          returns=lambda c: VExt("Extractor", EXTR(c.args["filename"].t)),
+                          raises=[Raises("Exception", sub=True, label="no extractor for this name")],
+                          note="lru_cache wrapper of router.get_extractor (C07); a function of the base name"))
+
+    # ---- _process_archive_entry: one dispatch, right extractor / bytes / path; everything it yields, in order; raises nothing
+    def pe_inv(lc):
+        conj = []
+        if lc.extra.get("phase") == "preserve":
+            ys = new_events(lc, "yields")
+            d = events(lc.st, "dispatch")
+            ok = z3.BoolVal(False)
+            if len(ys) == 1 and len(d) == 1 and isinstance(ys[0], VExt) and ys[0].sort == "Result":
+                g = lc.seq.t if isinstance(lc.seq, VExt) else None
+                if g is not None:
+                    ok = ys[0].t == RES(g, lc.i - 1)
+            conj.append(ok)
+        if lc.extra.get("phase") == "exit":
+            lc.st.ghost["results_exhausted"] = True
+        return z3.And(conj + [z3.BoolVal(True)])
+
+    def pe_dispatch_ok(c):
+        fn, data, ap, bn = c.args["filename"].t, c.args["file_data"].t, c.args["archive_path"], c.args["basename"].t
+        d = events(c.st, "dispatch")
+        if len(d) == 0:
+            return z3.BoolVal(True)
+        if len(d) != 1:
+            return z3.BoolVal(False)
+        f, args, kw = d[0]
+        if not (len(args) == 1 and isinstance(args[0], VExt) and args[0].sort == "MemberIO" and set(kw) == {"path"} and isinstance(kw["path"], VStr)):
+            return z3.BoolVal(False)
+        return z3.And(f.t == EXTR(bn), args[0].t == MEMIO(data), kw["path"].t == member_path(ap, fn))
+
+    def pe_complete(c):
+        """no exception swallowed: the member is dispatched (unless above the entry limit) and its results are exhausted."""
+        data = c.args["file_data"].t
+        d = events(c.st, "dispatch")
+        if c.st.ghost.get("raised", 0):
+            return z3.BoolVal(True)
+        big = BLEN(data) > max_entry
+        if len(d) == 0:
+            return big
+        return z3.And(z3.Not(big), z3.BoolVal(bool(c.st.ghost.get("results_exhausted"))))
+
+    out.append(FnContract(
+        target=f"{ARCH}::_process_archive_entry",
+        params=[("filename", p_str()), ("file_data", p_ext("Blob")), ("archive_path", p_opt(p_str())), ("basename", p_str())],
+        generator=True, raises=[],
+        ensures=[("one-dispatch-extractor-by-basename-member-bytes-archive!/member-path", pe_dispatch_ok),
+                 ("member-dispatched-and-all-its-results-yielded-unless-it-fails", pe_complete)],
+        loops={0: LoopSpec(inv=done("yields-the-extractor-results-in-order", pe_inv), label="yields-the-extractor-results-in-order")},
+        result_maker=lambda ex, st, ctx: VExt("EntryGen", entry_term(ctx.args["filename"].t, ctx.args["file_data"].t,
+                                                                     ctx.args["archive_path"], ctx.args["basename"].t)),
+        note="a member failure is swallowed here (affects only itself); results = extractor(BytesIO(bytes), path='archive!/member')"))
+
+    # ---- ZIP
+    zf_of = {}
+
+    def zip_zf(lc):
+        vals = [v for v in lc.st.frame.env.values() if isinstance(v, VExt) and v.sort == "ZipFile"]
+        if len(vals) != 1:
+            raise ops.Unsupported("zip loop: expected one ZipFile local")
+        return vals[0].t
+
+    ZKEPT = z3.RecFunction("zip_kept_before", ZipFileS, I, I)
+    _z = z3.Const("z!def", ZipFileS)
+
+    def zkeep(zf, a):
+        e = ZINFO(zf, a)
+        return z3.And(z3.Not(ZISDIR(e)), z3.Not(SKIP(ZNAME(e), BASENAME(ZNAME(e)))))
+    z3.RecAddDefinition(ZKEPT, [_z, _i], z3.If(_i <= 0, 0, ZKEPT(_z, _i - 1) + z3.If(zkeep(_z, _i - 1), 1, 0)))
+    ZSEL = z3.Function("zip_selected_index", ZipFileS, I, I)
+
+    def zip_sel_inv(lc):
+        zf = zip_zf(lc)
+        i = lc.i
+        conj = []
+        fnode = lc.ex.cur_fn_stack[-1]
+        wl = worklist_name(fnode, 0)
+        ref = lc.entry.lookup(wl).ref
+        if lc.extra.get("phase") == "preserve":
+            e = ZINFO(zf, i - 1)
+            new = [v for (r, v) in new_events(lc, "appends") if r == ref]
+            ok = z3.BoolVal(False)
+            if len(new) == 0:
+                ok = z3.Not(zkeep(zf, i - 1))
+            elif len(new) == 1 and isinstance(new[0], VTuple) and len(new[0].items) == 3:
+                h, fn, bn = new[0].items
+                if isinstance(h, VExt) and h.sort == "ZipInfo" and isinstance(fn, VStr) and isinstance(bn, VStr):
+                    ok = z3.And(zkeep(zf, i - 1), h.t == e, fn.t == ZNAME(e), bn.t == BASENAME(ZNAME(e)))
+            conj.append(ok)
+        if lc.extra.get("phase") == "exit":
+            # PY-LIST-ORDER: the list is the sequence of appended values in loop order = the kept members, in container order
+            n = ZKEPT(zf, ZN(zf))
+            lc.st.assume(sel_axiom(lambda j: ZSEL(zf, j), lambda a: ZKEPT(zf, a), lambda a: zkeep(zf, a), ZN(zf)))
+            lc.st.bind(wl, VSeq(n, lambda j: VTuple([VExt("ZipInfo", ZINFO(zf, ZSEL(zf, j))), VStr(ZNAME(ZINFO(zf, ZSEL(zf, j)))),
+                                                    VStr(BASENAME(ZNAME(ZINFO(zf, ZSEL(zf, j)))))]), "tuple", tag=("worklist", zf)))
+        return z3.And(conj + [z3.BoolVal(True)])
+
+    def zip_disp_inv(lc):
+        zf = zip_zf(lc)
+        conj = []
+        if lc.extra.get("phase") == "preserve":
+            j = lc.i - 1
+            e = ZINFO(zf, ZSEL(zf, j))
+            ap = lc.entry.lookup("archive_path")
+            ys = new_events(lc, "yields")
+            ok = z3.BoolVal(False)
+            if len(ys) == 0:
+                ok = ZSIZE(e) > MAXMEM
+            elif len(ys) == 1 and isinstance(ys[0], VExt) and ys[0].sort == "EntryGen":
+                ok = z3.And(z3.Not(ZSIZE(e) > MAXMEM),
+                            ys[0].t == entry_term(ZNAME(e), ZREAD(zf, e), ap, BASENAME(ZNAME(e))))
+            conj.append(ok)
+        return z3.And(conj + [z3.BoolVal(True)])
+
+    ENC = "ExtractionFileEncryptedError"
+    out.append(FnContract(
+        target=f"{ARCH}::_extract_from_zip_optimized",
+        params=[("file_like", p_ext("Stream7z")), ("archive_path", p_opt(p_str()))],
+        generator=True,
+        ensures=[completes("selects-the-visible-supported-members-in-infolist-order", "each-selected-member-dispatched-with-its-own-bytes-name-basename"), ("container-opened-on-the-given-bytes", lambda c: z3.BoolVal(c.st.ghost.get("zip_source") is c.args["file_like"]))],
+        raises=[Raises(ENC, label="an entry is encrypted"), Raises("Exception", sub=True, label="the container could not be opened",
+                                                                  when=lambda c: z3.BoolVal(c.exc is not None and c.exc.attrs.get("site") == "zipfile.ZipFile()")),
+                Raises("ExtractionFailedError", label="BadZipFile from the constructor")],
+        loops={0: LoopSpec(inv=done("selects-the-visible-supported-members-in-infolist-order", zip_sel_inv), label="selects-the-visible-supported-members-in-infolist-order"),
+               1: LoopSpec(inv=done("each-selected-member-dispatched-with-its-own-bytes-name-basename", zip_disp_inv), label="each-selected-member-dispatched-with-its-own-bytes-name-basename")},
+        frame=lambda ex, st, ctx: st.ghost.__setitem__("routes", events(st, "routes") + (("zip", ctx.args["file_like"], ctx.args["archive_path"], None),)),
+        result_maker=lambda ex, st, ctx: VExt("MemberGen"),
+        note="members: non-directory, not skipped, <= max_memory_size; order = zf.infolist(); bytes = zf.read(info)"))
+
+    # ---- TAR
+    def tar_tf(lc):
+        vals = [v for v in lc.st.frame.env.values() if isinstance(v, VExt) and v.sort == "TarFile"]
+        if len(vals) != 1:
+            raise ops.Unsupported("tar loop: expected one TarFile local")
+        return vals[0].t
+
+    def tar_inv(lc):
+        tf = tar_tf(lc)
+        conj = []
+        if lc.extra.get("phase") == "preserve":
+            m = TMEM(tf, lc.i - 1)
+            ap = lc.entry.lookup("archive_path")
+            keep = z3.And(TISREG(m), z3.Not(SKIP(TNAME(m), BASENAME(TNAME(m)))), z3.Not(TSIZE(m) > MAXMEM), THASFILE(tf, m))
+            ys = new_events(lc, "yields")
+            failed = lc.st.ghost.get("raised", 0) > lc.entry.ghost.get("raised", 0)
+            ok = z3.BoolVal(False)
+            if len(ys) == 0:
+                ok = z3.BoolVal(True) if failed else z3.Not(keep)     # a member whose read failed affects only itself
+            elif len(ys) == 1 and isinstance(ys[0], VExt) and ys[0].sort == "EntryGen":
+                ok = z3.And(keep, ys[0].t == entry_term(TNAME(m), TREAD(tf, m), ap, BASENAME(TNAME(m))))
+            conj.append(ok)
+        return z3.And(conj + [z3.BoolVal(True)])
+
+    def tar_opened_ok(c):
+        t = c.st.ghost.get("tar_open")
+        if t is None:
+            return z3.BoolVal(False)
+        fo, mode = t
+        return z3.And(z3.BoolVal(fo is c.args["file_like"]), z3.BoolVal(isinstance(mode, VStr)) if not isinstance(mode, VStr)
+                      else mode.t == c.args["mode"].t)
+
+    out.append(FnContract(
+        target=f"{ARCH}::_extract_from_tar_optimized",
+        params=[("file_like", p_ext("Stream7z")), ("archive_path", p_opt(p_str())), ("mode", p_str())],
+        generator=True,
+        ensures=[completes("each-visible-supported-regular-member-dispatched-in-getmembers-order"), ("container-opened-on-the-given-bytes-with-the-given-mode", tar_opened_ok)],
+        raises=[Raises("Exception", sub=True, label="the container could not be opened / listed",
+                       when=lambda c: z3.BoolVal(c.exc is not None and c.exc.attrs.get("site") in ("tarfile.open()", "TarFile.getmembers()"))),
+                Raises("ExtractionFailedError", label="TarError")],
+        loops={0: LoopSpec(inv=done("each-visible-supported-regular-member-dispatched-in-getmembers-order", tar_inv), label="each-visible-supported-regular-member-dispatched-in-getmembers-order")},
+        frame=lambda ex, st, ctx: st.ghost.__setitem__("routes", events(st, "routes") + (("tar", ctx.args["file_like"], ctx.args["archive_path"], ctx.args.get("mode")),)),
+        result_maker=lambda ex, st, ctx: VExt("MemberGen"),
+        note="members: regular, not skipped, <= max_memory_size; order = tf.getmembers(); bytes = tf.extractfile(m).read(); "
+             "a failing member read is skipped (affects only itself)"))
+
+    # ---- 7z: sequential processing of the extracted files
+    wl_maker, (WN, WH, WFN, WBN) = p_worklist("work", "FileInfo")
+
+    def seq7_inv(lc):
+        conj = []
+        if lc.extra.get("phase") == "preserve":
+            j = lc.i - 1
+            temp = lc.entry.lookup("temp_dir").t
+            ap = lc.entry.lookup("archive_path")
+            pth = SJ(temp, WFN(j))
+            ys = new_events(lc, "yields")
+            failed = lc.st.ghost.get("raised", 0) > lc.entry.ghost.get("raised", 0)
+            ok = z3.BoolVal(False)
+            if len(ys) == 0:
+                ok = z3.BoolVal(True) if failed else z3.Not(EXISTS(pth))
+            elif len(ys) == 1 and isinstance(ys[0], VExt) and ys[0].sort == "EntryGen":
+                ok = z3.And(EXISTS(pth), ys[0].t == entry_term(WFN(j), FSREAD(pth), ap, WBN(j)))
+            conj.append(ok)
+        return z3.And(conj + [z3.BoolVal(True)])
+
+    def seq7_result(ex, st, ctx):
+        st.ghost["seq7"] = events(st, "seq7") + ((ctx.args["files_to_process"], ctx.args["temp_dir"], ctx.args["archive_path"]),)
+        return VExt("MemberGen")
+
+    out.append(FnContract(
+        target=f"{ARCH}::_process_7z_files_sequential",
+        params=[("files_to_process", wl_maker), ("temp_dir", p_str()), ("archive_path", p_opt(p_str()))],
+        generator=True, raises=[],
+        ensures=[completes("each-work-item-dispatched-with-the-bytes-extracted-under-its-own-name")],
+        loops={0: LoopSpec(inv=done("each-work-item-dispatched-with-the-bytes-extracted-under-its-own-name", seq7_inv), label="each-work-item-dispatched-with-the-bytes-extracted-under-its-own-name")},
+        result_maker=seq7_result,
+        note="work item (info, name, base) -> entry(name, content of safe_join(temp_dir, name), archive_path, base); "
+             "a missing / unreadable file affects only itself"))
+
+    # ---- 7z: selection + extraction into a private temp dir + sequential processing
+    KEPT7 = z3.RecFunction("szf_kept_before", I, I)
+
+    def keep7(a):
+        e = FINFO(a)
+        return z3.And(z3.Not(ISDIR(e)), z3.Not(SKIP(FNAME(e), BASENAME(FNAME(e)))), z3.Not(USIZE(e) > MAXMEM))
+    z3.RecAddDefinition(KEPT7, [_i], z3.If(_i <= 0, 0, KEPT7(_i - 1) + z3.If(keep7(_i - 1), 1, 0)))
+    SEL7 = z3.Function("szf_selected_index", I, I)
+
+    def sel7_inv(lc):
+        i = lc.i
+        conj = []
+        fnode = lc.ex.cur_fn_stack[-1]
+        wl = worklist_name(fnode, 0)
+        ref = lc.entry.lookup(wl).ref
+        if lc.extra.get("phase") == "preserve":
+            e = FINFO(i - 1)
+            new = [v for (r, v) in new_events(lc, "appends") if r == ref]
+            ok = z3.BoolVal(False)
+            if len(new) == 0:
+                ok = z3.Not(keep7(i - 1))
+            elif len(new) == 1 and isinstance(new[0], VTuple) and len(new[0].items) == 3:
+                h, fn, bn = new[0].items
+                if isinstance(h, VExt) and h.sort == "FileInfo" and isinstance(fn, VStr) and isinstance(bn, VStr):
+                    ok = z3.And(keep7(i - 1), h.t == e, fn.t == FNAME(e), bn.t == BASENAME(FNAME(e)))
+            conj.append(ok)
+        if lc.extra.get("phase") == "exit":
+            lc.st.assume(sel_axiom(SEL7, KEPT7, keep7, N7))
+            v = VSeq(KEPT7(N7), lambda j: VTuple([VExt("FileInfo", FINFO(SEL7(j))), VStr(FNAME(FINFO(SEL7(j)))),
+                                                 VStr(BASENAME(FNAME(FINFO(SEL7(j)))))]), "tuple", tag=("worklist7",))
+            lc.st.bind(wl, v)
+            lc.st.ghost["worklist7"] = v
+        return z3.And(conj + [z3.BoolVal(True)])
+
+    def z7_post(c):
+        """on normal return: the archive was extracted once into the private temp dir, and exactly the selected members
+        (in list() order) were handed to the sequential processor together with that directory and the archive path."""
+        g = c.st.ghost
+        ex_, sq, ys = events(c.st, "extractall"), events(c.st, "seq7"), events(c.st, "yields")
+        temp = g.get("temp_dir")
+        if not (len(ex_) == 1 and len(sq) == 1 and len(ys) == 1 and temp is not None):
+            return z3.BoolVal(False)
+        wl, td, ap = sq[0]
+        same_ap = (ap is c.args["archive_path"]) or (isinstance(ap, VStr) and isinstance(c.args["archive_path"], VStr) and ap.t.eq(c.args["archive_path"].t))
+        return z3.And(z3.BoolVal(wl is g.get("worklist7")), z3.BoolVal(isinstance(ex_[0], VStr) and isinstance(td, VStr)),
+                      ex_[0].t == temp.t if isinstance(ex_[0], VStr) else z3.BoolVal(False),
+                      td.t == temp.t if isinstance(td, VStr) else z3.BoolVal(False), z3.BoolVal(bool(same_ap)),
+                      z3.BoolVal(g.get("szf_source") is c.args["file_like"]))
+
+    out.append(FnContract(
+        target=f"{ARCH}::_extract_from_7z_optimized",
+        params=[("file_like", p_ext("Stream7z")), ("archive_path", p_opt(p_str()))],
+        generator=True,
+        ensures=[completes("selects-the-visible-supported-members-in-list-order"), ("selected-members-extracted-to-a-private-dir-and-processed-in-list-order", z7_post)],
+        raises=[Raises("ExtractionError", sub=True, label="too large / encrypted / extraction failed / invalid archive"),
+                Raises("Exception", sub=True, label="container / temp dir could not be opened",
+                       when=lambda c: z3.BoolVal(c.exc is not None and "site" in c.exc.attrs))],
+        loops={0: LoopSpec(inv=done("selects-the-visible-supported-members-in-list-order", sel7_inv), label="selects-the-visible-supported-members-in-list-order")},
+        frame=lambda ex, st, ctx: st.ghost.__setitem__("routes", events(st, "routes") + (("7z", ctx.args["file_like"], ctx.args["archive_path"], None),)),
+        result_maker=lambda ex, st, ctx: VExt("MemberGen"),
+        note="members: non-directory, not skipped, <= max_memory_size; order = szf.list()"))
+    return out
+
+
 def contracts(reg):
     install_stream(reg)
     install_layout(reg)
+    install_members(reg)
     out = []
     out.extend(byte_contracts())
     out.extend(layout_contracts())
+    out.extend(member_contracts())
     return out
 
 
@@ -726,7 +1310,7 @@ def lemmas():
     return out
 
 
-EXECUTOR = C10Executor
+EXECUTOR = MemberExecutor
 EXECUTOR_KW = {}
 TRUSTED = []
 ASSUMED_MODELS = ["io.BytesIO.read/seek/tell on the header stream (bytes [pos, min(pos+n, len)), position advanced)",
